@@ -15,7 +15,7 @@ RULE = ("kinds: chunks (n, n_chunks) exhaustive over a grid; srcpipeline / scrip
         "ChunkedDistanceMatrix calls (incl. invalid ones), run on the TRANSLATED source (Generated/Src*.v extracted) and compared with the real class; pipeline (n<=7, n_chunks, chunk order with "
         "repeats / omissions, distinct-valued metric table incl. 0) through the real "
         "calculate_pairwise_distance_matrix_on_predictions + save + load + concat + to_dense; mse (float vectors, "
-        "sigmoid on/off).  Non-trivial: n>=2; distinct by canonical case description.")
+        "sigmoid on/off; the same two arrays serve three calls and must come back unchanged).  Non-trivial: n>=2; distinct by canonical case description.")
 THEOREMS = {
     "C07_model_is_source_arithmetic": "n_lower and chunk_bounds are the source's arithmetic (round-1 integer-kernel translation py2coq of get_number_of_lower_triangular_indices and the arithmetic prefix of get_lower_triangular_indices_chunk)",
     "C07_model_is_source_enumeration": "lower_tri n (as integer pairs) is what the whole generator lower_triangular_indices, re-translated from /repo on this run, yields for n >= 0; for n <= 0 it yields nothing",
@@ -389,10 +389,17 @@ def run(desc):
         import warnings
         with warnings.catch_warnings():
             warnings.simplefilter("ignore")
-            v = MSEDistance(sigmoid=sg).distance(np.array(a, dtype=float), np.array(b, dtype=float))
-            v2 = MSEDistance(sigmoid=sg).distance(np.array(b, dtype=float), np.array(a, dtype=float))
+            # the SAME two arrays serve every call, as the predictions of a posterior sample serve every pair it is part of
+            A, B = np.array(a, dtype=float), np.array(b, dtype=float)
+            v = MSEDistance(sigmoid=sg).distance(A, B)
+            v2 = MSEDistance(sigmoid=sg).distance(B, A)
+            v3 = MSEDistance(sigmoid=sg).distance(A, B)
         pred = None
+        if not (np.array_equal(A, np.array(a, dtype=float), equal_nan=True) and np.array_equal(B, np.array(b, dtype=float), equal_nan=True)):
+            pred = "metric modified the predictions it was given (every later entry computed from them differs)"
         if len(a) > 0:
+            if not (v3 == v or (v3 != v3 and v != v)):
+                pred = "metric gives %r then %r on the same two prediction arrays" % (float(v), float(v3))
             if v != v2:
                 pred = "metric not symmetric"
             if v < 0:
